@@ -104,12 +104,11 @@ def decodeWindows1252 (d : Bytes) : Res Cow :=
 
 /-! ### SWAR helpers (util.rs) -/
 
-/-- util.rs `le_u64`: `u64::from_le_bytes` of eight bytes. -/
+/-- util.rs `le_u64`: `u64::from_le_bytes` of eight bytes (`b0` is the least significant
+byte, so it is the rightmost operand of the concatenation). -/
 def leU64 (b0 b1 b2 b3 b4 b5 b6 b7 : UInt8) : BitVec 64 :=
-  b0.toBitVec.zeroExtend 64 ||| (b1.toBitVec.zeroExtend 64 <<< 8) |||
-  (b2.toBitVec.zeroExtend 64 <<< 16) ||| (b3.toBitVec.zeroExtend 64 <<< 24) |||
-  (b4.toBitVec.zeroExtend 64 <<< 32) ||| (b5.toBitVec.zeroExtend 64 <<< 40) |||
-  (b6.toBitVec.zeroExtend 64 <<< 48) ||| (b7.toBitVec.zeroExtend 64 <<< 56)
+  b7.toBitVec ++ b6.toBitVec ++ b5.toBitVec ++ b4.toBitVec ++
+  b3.toBitVec ++ b2.toBitVec ++ b1.toBitVec ++ b0.toBitVec
 
 /-- util.rs `repeat_byte`: `(b as u64) * (u64::MAX / 255)`. -/
 def repeatByte (b : UInt8) : BitVec 64 := b.toBitVec.zeroExtend 64 * 0x0101010101010101#64
